@@ -134,7 +134,13 @@ func (st *Statement) QueryContext(ctx context.Context, v []driver.NamedValue) (d
 				return false
 			}
 		}
-		rows.err = st.dbh.SelectDone(table, cb, cols...)
+		err := st.dbh.SelectDone(table, cb, cols...)
+		if err == io.EOF {
+			// A file shorter than its pages. database/sql would take a bare
+			// io.EOF from Next() for the normal end of the result set.
+			err = io.ErrUnexpectedEOF
+		}
+		rows.err = err
 		rows.wg.Done()
 	}()
 
